@@ -228,6 +228,10 @@ pub fn child(args: &Args) -> ! {
             let snap_idx = snapshots.len() - 1;
             let events = mon.events();
             let durable = crashimg::build(&base, &events, &Recipe { cut: events.len(), keep: vec![], tear: None });
+            // C05 / C10 at this acknowledged quiescent point: the persisted counters equal the live totals
+            if let Err((sig, msg)) = layout::check_counters(&durable) {
+                problems.push((format!("fault:{sig}"), format!("after the device healed and flush() succeeded: {msg}")));
+            }
             let p = format!("{dir}/{tag}.final.durable.img");
             std::fs::write(&p, durable).unwrap();
             images.push(json!({"path": p, "kind": "durable-after-healed-flush", "lo": snap_idx, "hi": snap_idx, "faulted": true}));
